@@ -278,8 +278,14 @@ def c04(tier):
         for k in present[:3]:
             readers.append(["q", "g:" + k, "q", "g:" + k])
             readers.append(["g:" + k, "g:" + k])  # never quiesces before the end
-        readers.append(["q", "s:f", "q"])
-        readers.append(["q", "s:r", "q", "g:" + present[0]])
+        if len(base["init"]) <= 64:
+            readers.append(["q", "s:f", "q"])
+            readers.append(["q", "s:r", "q", "g:" + present[0]])
+        else:
+            # a full scan of 256 leaves has thousands of scheduling points (bound 2 would mean millions of executions):
+            # scans that halt after two entries, from either end
+            readers.append(["q", "s:f:h2", "q"])
+            readers.append(["q", "s:r:h2", "q", "g:" + present[0]])
         writers = []
         for k in base["univ"]:
             if k in base["init"]:
